@@ -383,6 +383,20 @@ func runC16Doc(c *fw.Ctx, tag string, d *result.Results, r *rand.Rand) {
 	orig := cloneDoc(d)
 	d.Normalize()
 	checkDoc(c, tag, d, true)
+	// identifiers are fresh: finishing a document that already carries identifiers (decoded from JSON, or finished
+	// again after more runs were appended) must not republish the old ones
+	again := cloneDoc(d)
+	again.TestRunID = d.TestRunID
+	again.Normalize()
+	if again.TestRunID == d.TestRunID {
+		c.Violate("C16", "stale-id/test-run", tag+": Normalize() on a document that already has a test_run_id kept it", nil)
+	}
+	for i := range again.Traceroute.Runs {
+		if i < len(d.Traceroute.Runs) && again.Traceroute.Runs[i].RunID == d.Traceroute.Runs[i].RunID {
+			c.Violate("C16", "stale-id/run", tag+": Normalize() on a run that already has a run_id kept it", nil)
+			break
+		}
+	}
 	// the finished document of a request with private-hop skipping: still self-consistent
 	red := cloneDoc(d)
 	red.TestRunID = d.TestRunID
